@@ -716,4 +716,9 @@ example : ∀ c ∈ ["363698007|SCT", "G-C0E3|SRT", "121071|DCM", "S1|99V"], exN
 example : queryN exNorm .planar ((exReport.map mkGroup).map (Group.mapCodes exRespell)) { findingSite := some "S1|99V" } = .ok [0, 5] ∧
     query .planar ((exReport.map mkGroup).map (Group.mapCodes exRespell)) { findingSite := some "S1|99V" } = .ok [] := by decide
 
+/-- a report WITHOUT any measurement group ("0..n groups"): every accepted query answers with no group, a refused filter
+combination is refused all the same -/
+example : query .planar [] {} = .ok [] ∧ query .image [] { trackingUid := some "1.1" } = .ok [] ∧
+    query .volumetric [] { referenceType := some cReferencedSegmentationFrame } = .error .value := by decide
+
 end HdVerif.C16
